@@ -1,4 +1,5 @@
 import LSProofs.InlineLemmas
+import LSProofs.Resource
 /-!
 # C09 — texts up to 16 bytes never touch the heap; longer ones allocate once, exactly
 -/
@@ -46,6 +47,12 @@ theorem step_fromStr_short (rf : Refuse) (w : World) (d : Nat) (t : Bytes) (plai
 theorem step_fromChar (rf : Refuse) (w : World) (d : Nat) (c : Bytes) (hd : w.get d = none) :
     step rf w (.fromChar d c) = (w.put w.heap d (some (.inl (inlNew c))), .ok .unit) := by
   simp [step, hd]
+
+/-- (b) appending to an inline string so that it stays within 16 bytes: the heap is bit-identical
+(no request, no event) and the result is inline -/
+theorem push_inline_stays_inline (rf : Refuse) (st : List Bytes) (hp hp' : Heap) (raw : Bytes) (s : Bytes) (r' : Handle)
+    (hfit : inlLen raw + s.length ≤ 16) (h : pushStr rf st hp (.inl raw) s = .ok () hp' r') :
+    hp' = hp ∧ ∃ raw', r' = .inl raw' := pushStr_inline_no_heap rf st hp hp' raw s r' () hfit h
 
 -- non-vacuity
 example : fromStr (fun _ _ => false) {} [0x61, 0x62] = (some (.inl (inlNew [0x61, 0x62])), {}) := by decide
